@@ -23,9 +23,9 @@ def add_failure(out, kind, what, inp, expected, got, confirmed=True, sig=None, *
 
 PROP = "C07"
 PROPS_FILES = ["CogentModel/Props/C07.lean", "CogentModel/Props/C07Lf.lean", "CogentModel/Props/C07Rules2.lean",
-               "CogentModel/Props/C07Gen.lean"]
+               "CogentModel/Props/C07Gen.lean", "CogentModel/Props/C07NonLeaf.lean"]
 LEAN_TARGETS = ["CogentModel.Props.C07", "CogentModel.Props.C07Lf", "CogentModel.Props.C07Rules2",
-                "CogentModel.Props.C07Gen"]
+                "CogentModel.Props.C07Gen", "CogentModel.Props.C07NonLeaf"]
 DRIVER = "drv_c07"
 TRUSTED = [
     "hand-written model lean/CogentModel/Model/Calculator.lean of recalculation.calculation.Calculator "
@@ -228,6 +228,7 @@ def correspondence(ctx):
     from . import c07_gen
 
     c07_gen.corr_gen(ctx, out)
+    c07_gen.corr_nonleaf(ctx, out)
     return out
 
 
